@@ -423,40 +423,46 @@ func runSuites(c *mc.Ctx, dsts []named) {
 		par(c, "suite/"+f.name, p.Size(), func(w *mc.W, i int) {
 			var d [2]int
 			p.Decode(i, d[:])
-			dst, msg := dsts[d[0]], msgs[d[1]]
-			cas := map[string]string{"function": f.name, "dst": fmt.Sprintf("%x", dst.b), "dst_desc": dst.desc, "msg": fmt.Sprintf("%x", msg.b), "msg_desc": msg.desc}
-			got, err := f.call(dst.b, msg.b)
-			if f.refused {
-				w.Eval("suite/refused", true)
-				if err == nil {
-					w.Fail("h2c.suite/missing-error", fmt.Sprintf("%s dst=%s msg=%s: a digest below 32 bytes must be refused, got %x", f.name, dst.desc, msg.desc, got), cas)
-				}
-				return
-			}
-			want, rerr := f.want(dst.b, msg.b)
-			if rerr != nil {
-				panic(harnessErr("reference suite aborted: " + rerr.Error()))
-			}
-			w.Eval("suite/"+f.kind, true)
-			if err != nil {
-				w.Fail("h2c.suite/spurious-error", fmt.Sprintf("%s dst=%s msg=%s: error %v", f.name, dst.desc, msg.desc, err), cas)
-				return
-			}
-			if f.kind == "ristretto" {
-				if wantEnc := ref.RistrettoEncode(want); !bytes.Equal(got, wantEnc) {
-					w.Fail("h2c.suite/ristretto255", fmt.Sprintf("%s dst=%s msg=%s: element %x want %x", f.name, dst.desc, msg.desc, got, wantEnc), cas)
-				}
-			} else {
-				if !bytes.Equal(got, want.Encode()) {
-					w.Fail("h2c.suite/"+f.kind, fmt.Sprintf("%s dst=%s msg=%s: point %x want %x", f.name, dst.desc, msg.desc, got, want.Encode()), cas)
-				}
-				if on, sub := subgroupCheck(got); !on || !sub {
-					w.Fail("h2c.suite/subgroup", fmt.Sprintf("%s dst=%s msg=%s: returned point %x on-curve=%v [L]P=O:%v", f.name, dst.desc, msg.desc, got, on, sub), cas)
-				}
-			}
-			if i%61 == 0 {
-				w.Sample(map[string]string{"op": f.name, "dst": dst.desc, "msg": msg.desc, "result": fmt.Sprintf("%x", got)})
-			}
+			suiteCase(w, f, dsts[d[0]], msgs[d[1]], true, i%61 == 0)
 		})
+	}
+}
+
+// suiteCase runs one exported suite function on (dst, msg) against the RFC 9380 definition.
+func suiteCase(w *mc.W, f suiteFn, dst, msg named, subgroup, sample bool) {
+	cas := map[string]string{"function": f.name, "dst": fmt.Sprintf("%x", dst.b), "dst_desc": dst.desc, "msg": fmt.Sprintf("%x", msg.b), "msg_desc": msg.desc}
+	got, err := f.call(dst.b, msg.b)
+	if f.refused {
+		w.Eval("suite/refused", true)
+		if err == nil {
+			w.Fail("h2c.suite/missing-error", fmt.Sprintf("%s dst=%s msg=%s: a digest below 32 bytes must be refused, got %x", f.name, dst.desc, msg.desc, got), cas)
+		}
+		return
+	}
+	want, rerr := f.want(dst.b, msg.b)
+	if rerr != nil {
+		panic(harnessErr("reference suite aborted: " + rerr.Error()))
+	}
+	w.Eval("suite/"+f.kind, true)
+	if err != nil {
+		w.Fail("h2c.suite/spurious-error", fmt.Sprintf("%s dst=%s msg=%s: error %v", f.name, dst.desc, msg.desc, err), cas)
+		return
+	}
+	if f.kind == "ristretto" {
+		if wantEnc := ref.RistrettoEncode(want); !bytes.Equal(got, wantEnc) {
+			w.Fail("h2c.suite/ristretto255", fmt.Sprintf("%s dst=%s msg=%s: element %x want %x", f.name, dst.desc, msg.desc, got, wantEnc), cas)
+		}
+	} else {
+		if !bytes.Equal(got, want.Encode()) {
+			w.Fail("h2c.suite/"+f.kind, fmt.Sprintf("%s dst=%s msg=%s: point %x want %x", f.name, dst.desc, msg.desc, got, want.Encode()), cas)
+		}
+		if subgroup {
+			if on, sub := subgroupCheck(got); !on || !sub {
+				w.Fail("h2c.suite/subgroup", fmt.Sprintf("%s dst=%s msg=%s: returned point %x on-curve=%v [L]P=O:%v", f.name, dst.desc, msg.desc, got, on, sub), cas)
+			}
+		}
+	}
+	if sample {
+		w.Sample(map[string]string{"op": f.name, "dst": dst.desc, "msg": msg.desc, "result": fmt.Sprintf("%x", got)})
 	}
 }
